@@ -151,6 +151,12 @@ class Subject(object):
         if name == 'RemoveRemote':
             self.db.remove_remote(self.nameid(a['n']))
             return {'r': 'ok'}
+        if name == 'RemoveRemoteStale':
+            try:
+                self.db.remove_remote(self.nameid(a['n']))
+            except Exception:
+                pass
+            return {'r': 'any'}
         if name == 'Manage':
             nid = self.nameid(a['n'])
             if a['spid']:
@@ -273,8 +279,13 @@ def record_trace(args):
                 op = {'op': 'FindLocal', 'args': {'tok': rng.randint(0, max(1, sub.next - 1))}}
             elif x < 0.6:
                 op = {'op': 'FindNameid', 'args': {'u': u, 'sp': rng.choice([s, '']), 'fmt': rng.choice([f, ''])}}
-            elif x < 0.7 and cur:
+            elif x < 0.66 and cur:
                 op = {'op': 'RemoveRemote', 'args': {'n': rng.choice(cur)}}
+            elif x < 0.7 and cur:
+                n0 = dict(rng.choice(cur))
+                other = [p for p in ('', 'p1', 'p2') if p != n0['spid']]
+                n0['spid'] = rng.choice(other)
+                op = {'op': 'RemoveRemoteStale', 'args': {'n': n0}}
             elif x < 0.8 and cur:
                 op = {'op': 'Manage', 'args': {'n': rng.choice(cur), 'spid': rng.choice(['p1', 'p2', ''])}}
             elif x < 0.9 and cur:
